@@ -163,6 +163,9 @@ def run(spec):
             mm = S[(zi, 0, 'money')]
             issuer = S[(zi, 0, 'cb')] if g['kind'] in ('treasury_cb', 'gold_cb') else S[(zi, 0, 'gov')]
             holders = [s for s in zone_sectors if s.HasF and s is not issuer]
+            if ('SUP_' + mm.Code) not in issuer.EquationBlock.Equations:
+                raise Violation('C04/issuer-supply-missing', 'issuer %s of %s has no supply variable SUP_%s' %
+                                (issuer.FullCode, mm.FullCode, mm.Code))
             for k in range(1, K + 1):
                 tot = Fraction(0)
                 for s in holders:
@@ -182,6 +185,9 @@ def run(spec):
             issuer = S[(zi, 0, 'gov')]
             nmv = 'DEM_' + dm.Code
             holders = [s for s in zone_sectors if not isinstance(s, _Market) and s is not issuer and nmv in s.EquationBlock.Equations]
+            if ('SUP_' + dm.Code) not in issuer.EquationBlock.Equations:
+                raise Violation('C04/issuer-supply-missing', 'issuer %s of %s has no supply variable SUP_%s' %
+                                (issuer.FullCode, dm.FullCode, dm.Code))
             for k in range(1, K + 1):
                 tot = sum((V(k, s.GetVariableName(nmv)) for s in holders), Fraction(0))
                 if V(k, dm.GetVariableName(nmv)) != tot:
